@@ -196,6 +196,13 @@ def catalogue():
     add('tile:int', lambda x: A.tile(x, 2) * np.arange(1., 7.), [(V, 'R')], ['linalg', 'tile'])
     add('tile:tuple', lambda X: A.tile(X, (2, 1)) * 1.5, [((2, 3), 'R')], ['linalg', 'tile'])
     add('triu', lambda X: A.triu(X), [(M, 'R')], ['linalg', 'nopb'])
+    # --- raw matrix inputs whose structure decisions (pivot rows) differ from call to call, i.e. between directions
+    add('det:raw', lambda X: A.det(X), [(M, 'wcperm')], ['linalg', 'pivot', 'structure'])
+    add('logdet:raw', lambda X: A.logdet(X), [(M, 'wcperm_pos')], ['linalg', 'pivot', 'structure'])
+    add('inv:raw', lambda X: A.inv(X), [(M, 'wcperm')], ['linalg', 'pivot', 'structure'])
+    add('solve:raw', lambda X, B: A.solve(X, B), [(M, 'wcperm'), ((3, 2), 'R')], ['linalg', 'pivot', 'structure'])
+    add('lu:raw:L', lambda X: A.lu(X)[1], [(M, 'wcperm')], ['fact', 'pivot', 'structure'])
+    add('lu:raw:U', lambda X: A.lu(X)[2], [(M, 'wcperm')], ['fact', 'pivot', 'structure'])
     # --- factorizations: uniquely defined outputs
     for shp, tag in [((3, 3), 'square'), ((4, 2), 'tall'), ((2, 3), 'wide')]:
         add('qr:Q:' + tag, lambda X: A.qr(X)[0], [(shp, 'R')], ['fact'], guard=qr_guard)
